@@ -167,6 +167,28 @@ func pipeRaceScope(r raceReport) bool {
 	return true
 }
 
+func hasFrame(a raceAccess, sub string) bool {
+	for _, f := range a.Frames {
+		if !isHarnessFrame(f) && strings.Contains(f.Fn, sub) {
+			return true
+		}
+	}
+	return false
+}
+
+// lifeRaceScope (C15): a template-cache dump at shutdown against an access
+// made by a worker that is (still) processing a datagram. run() and
+// shutdown() are started by main with no happens-before edge between them, so
+// everything run() did at boot (GetCache, the cache variable, the stop flag)
+// formally races with shutdown even minutes later; vFlow orders those by time
+// and they belong to no listed property (DESIGN.md 3.10): notes, not
+// violations.
+func lifeRaceScope(r raceReport) bool {
+	d1, d2 := hasFrame(r.A, ".Dump"), hasFrame(r.B, ".Dump")
+	w1, w2 := hasFrame(r.A, "Worker"), hasFrame(r.B, "Worker")
+	return (d1 && w2) || (d2 && w1)
+}
+
 // checkRaceLog turns new race reports into violations (in scope) or notes.
 func checkRaceLog(prop string, mark int64, out *RunOut, scope func(raceReport) bool) {
 	p := raceLogPath()
